@@ -49,6 +49,15 @@ Fixpoint sh_logged_on (s : sshape) : bool :=
 Fixpoint sh_connected (s : sshape) : bool :=
   match s with ShInSession | ShResend _ _ _ _ | ShLogon | ShLogout => true | ShPending i => sh_connected i | _ => false end.
 Fixpoint sh_unwrap (s : sshape) : sshape := match s with ShPending i => sh_unwrap i | _ => s end.
+Fixpoint zlist_beq (a b : list Z) : bool :=
+  match a, b with [], [] => true | x :: a', y :: b' => (x =? y)%Z && zlist_beq a' b' | _, _ => false end.
+Fixpoint sh_beq (a b : sshape) : bool :=
+  match a, b with
+  | ShLatent, ShLatent | ShNotSession, ShNotSession | ShLogon, ShLogon | ShLogout, ShLogout | ShInSession, ShInSession => true
+  | ShResend m1 k1 c1 e1, ShResend m2 k2 c2 e2 => Bool.eqb m1 m2 && zlist_beq k1 k2 && (c1 =? c2)%Z && (e1 =? e2)%Z
+  | ShPending x, ShPending y => sh_beq x y
+  | _, _ => false
+  end.
 Definition sh_is_resend (s : sshape) : bool := match sh_unwrap s with ShResend _ _ _ _ => true | _ => false end.
 Definition sh_is_pending (s : sshape) : bool := match s with ShPending _ => true | _ => false end.
 
@@ -120,7 +129,8 @@ Definition hdr_time_ok (c : cfg) (stime : fres Z) : bool :=
   c_skip_latency c || match stime with FVal d => (d <? c_max_latency c) && (- c_max_latency c <? d) | _ => false end.
 
 (* ---------------------------------------------------------------------------------------------- *)
-(* C06 gate: a callback (other than FromAdmin for a Logon) implies the header checks and validation passed. *)
+(* C06 gate: a callback (other than FromAdmin for a Logon) implies the header checks and validation passed; a Logon
+   establishes the session (OnLogon) only if it passes them (c06_logon_gate). *)
 Definition gate_ok (c : cfg) (resend_ctx : bool) (f : mfacts) : bool :=
   beq_bytes (mf_begin f) (begin_string (c_begin c))
   && match mf_sender f, mf_target f with
@@ -136,6 +146,16 @@ Definition c06_gate_cbs (c : cfg) (resend_ctx : bool) (l : list cb) : bool :=
                     | CbFromAdmin t _ f => beq_bytes t T_LOGON || gate_ok c resend_ctx f
                     | _ => true
                     end) l.
+
+(* the Logon of an event in which the session was established passes the gate (evaluated when the event handed exactly one
+   Logon to FromAdmin, so that the Logon that established the session is identified) *)
+Definition c06_logon_gate (c : cfg) (resend_ctx : bool) (l : list cb) : bool :=
+  if existsb (fun x => match x with CbOnLogon => true | _ => false end) l then
+    match filter (fun x => match x with CbFromAdmin t _ _ => beq_bytes t T_LOGON | _ => false end) l with
+    | [CbFromAdmin _ _ f] => gate_ok c resend_ctx f
+    | _ => true
+    end
+  else true.
 
 (* reaction table for a directly processed, sequence-gated message in a logged-on, non-recovering session.
    Returns the expected (wire types, reject reason, reject ref tag, expected-number delta, next shape is Logout) or None
@@ -214,13 +234,15 @@ Definition c06_reject_shape (m : minput) (rj : omsg) : bool :=
   && forallb (fun f => existsb (fun g => fst g =? fst f) (reverse_route m)
                         || negb (existsb (Z.eqb (fst f)) [50; 57; 142; 143; 115; 128; 116; 129; 144; 145])) (o_hdr rj).
 
-(* codes: 601 callback for a message that fails the gate; 602 wrong reaction to a header defect; 603 reject shape *)
+(* codes: 601 callback for a message that fails the gate; 602 wrong reaction to a header defect; 603 reject shape;
+   604 a Logon failing the session-level checks established the session *)
 Fixpoint c06_scan (c : cfg) (i : nat) (prev : obs) (tr : list (event * obs)) : list failure :=
   match tr with
   | [] => []
   | (e, o) :: r =>
       let resend_ctx := sh_is_resend (ob_st prev) || sh_is_resend (ob_st o) in
       (if c06_gate_cbs c resend_ctx (ob_cbs o) then [] else [(i, 601)])
+      ++ (if c06_logon_gate c resend_ctx (ob_cbs o) then [] else [(i, 604)])
       ++ match e with
          | EIncoming m =>
              if sh_logged_on (ob_st prev) && negb (sh_is_resend (ob_st prev)) && negb (sh_is_pending (ob_st prev))
@@ -257,7 +279,7 @@ Definition is_gapfill (m : minput) : bool := match mi_gapfill m with FVal true =
 (* codes: 401 gap in normal operation not answered by exactly the right request / message not kept;
    402 a request while recovering that is not the next chunk at the expected number; 403 a kept message that is next in
    sequence was not delivered; 404 still recovering although the expected number is past the range; 405 a kept application
-   message was dropped: the expected number passed it without a hand-over *)
+   message was dropped: the expected number passed it without a hand-over; 406 a timer event changed the recovery bookkeeping *)
 Definition stash_keys (s : sshape) : list Z := match sh_unwrap s with ShResend true keys _ _ => keys | _ => [] end.
 Definition kept_lookup (k : Z) (kept : list (Z * minput)) : option minput :=
   match find (fun e => fst e =? k) kept with Some (_, m) => Some m | None => None end.
@@ -304,6 +326,14 @@ Fixpoint c04_scan (c : cfg) (i : nat) (kept : list (Z * minput)) (prev : obs) (t
             | _ => []
             end
           else [])
+      (* 406: a timer event never changes the recovery bookkeeping (kept messages, chunk end, range end) while the session
+         stays logged on *)
+      ++ (match e with
+          | ETimeout _ =>
+              if sh_is_resend (ob_st prev) && sh_logged_on (ob_st prev) && sh_logged_on (ob_st o)
+                 && negb (sh_beq (sh_unwrap (ob_st o)) (sh_unwrap (ob_st prev))) then [(i, 406)] else []
+          | _ => []
+          end)
       ++ (match sh_unwrap (ob_st o) with
           | ShResend true keys _ re =>
               (if existsb (Z.eqb (ob_tgt o)) keys then [(i, 403)] else [])
@@ -361,7 +391,8 @@ Definition is_initiator (c : cfg) : bool := match c_role c with Initiator => tru
 (* codes: 701 disconnect changed the store; 702 connect changed the store beyond the Logon it sent; 703 a sent Logon that
    resets is not number 1 with 141=Y / counters not 2,1; 704 lower NewSeqNo changed the expected number or was not rejected;
    705 a reset without any cause (no reset option, no 141=Y seen or sent); 706 reset on logout/disconnect did not return both
-   counters to 1; 707 reply to a Logon carrying 141=Y does not echo the flag as number 1 *)
+   counters to 1; 707 reply to a Logon carrying 141=Y does not echo the flag as number 1; 710 with ResetOnLogout a Logout
+   that passed verification (handed to FromAdmin and accepted) did not reset the store, whatever its number *)
 Definition logon_resets (m : omsg) : bool := is_type T_LOGON m && opt_beq (field_of 141 (o_body m)) (B "Y").
 
 Fixpoint c07_scan (c : cfg) (i : nat) (sent141 : bool) (prev : obs) (tr : list (event * obs)) : list failure :=
@@ -413,6 +444,12 @@ Fixpoint c07_scan (c : cfg) (i : nat) (sent141 : bool) (prev : obs) (tr : list (
                     | lg :: _ => if logon_resets lg && (o_seq lg =? 1) && (ob_snd o =? 2) then [] else [(i, 707)]
                     | [] => [(i, 707)]
                     end
+               else [])
+           ++ (if beq_bytes (mi_type m) T_LOGOUT && c_reset_on_logout c && (ob_inbuf prev =? 0)
+                  && (sh_logged_on (ob_st prev) || match ob_st prev with ShLogout => true | _ => false end)
+                  && existsb (fun x => match x with CbFromAdmin t _ _ => beq_bytes t T_LOGOUT | _ => false end) (ob_cbs o)
+                  && match mi_app m with VAccept => true | _ => false end
+               then if (ob_snd o =? 1) && (ob_tgt o =? 1) && has_reset (ob_cbs o) then [] else [(i, 710)]
                else [])
        | _ => []
        end)
